@@ -21,4 +21,4 @@ RULE = ("word: random walks (5-60 steps) of reader (acquire, pread, release) and
 
 def run(ctx):
     return conc_check(ctx, MODULE, THEOREMS, ['C08'], "read racing with retirement / reuse", ASSUME,
-                      extra_quick=('cases=0', 'words=150', 'races=12', 'readflush=3', 'overfull=4'), extra_thorough=('cases=0', 'words=3000', 'races=200', 'readflush=100', 'overfull=60'), rule=RULE, pre_finish=lambda c, cov: __import__('kv_engine').genuine_stage(c, cov))
+                      extra_quick=('cases=0', 'words=150', 'races=12', 'readflush=3', 'overfull=4', 'ttlchain=6'), extra_thorough=('cases=0', 'words=3000', 'races=200', 'readflush=100', 'overfull=60', 'ttlchain=150'), rule=RULE, pre_finish=lambda c, cov: __import__('kv_engine').genuine_stage(c, cov))
